@@ -34,6 +34,15 @@ def gen_plan(ctx, prop):
                                               FaultKinds='{"parent_gone"}', MaxFaults="1"), None))
         if not q:
             plans.append(("faults2", dict(BASE, FaultKinds=FAULTS, MaxFaults="2", MaxCalls="5"), n))
+    # voice flows: dial waits next to msg waits, dial resumes (accepted by dial waits only), the resume limit counts both
+    voice = dict(NodeKinds='{"act", "split", "wait", "dialwait", "enter"}', TrigKinds='{"manual"}', ResumeKinds='{"msg", "dial", "expiration", "timeout"}')
+    if prop == "C05":
+        plans.append(("voice", dict(BASE, MaxResumes="1", MaxSteps="3", **voice), n // 2))
+        plans.append(("voice-1x1", dict(BASE, NFlows="1", NNodes="1", NodeKinds='{"dialwait"}', TrigKinds='{"manual"}', ResumeKinds='{"dial", "msg"}', MaxResumes="2", MaxCalls="4"), None))
+    else:
+        plans.append(("voice", dict(BASE, FaultKinds=FAULTS if prop == "C10" else "{}", MaxFaults="1" if prop == "C10" else "0", **voice), n // 2))
+        if prop == "C10":
+            plans.append(("voice-1x1", dict(BASE, NFlows="1", NNodes="1", NodeKinds='{"dialwait"}', TrigKinds='{"manual"}', ResumeKinds='{"dial", "msg", "expiration"}', MaxResumes="2", MaxCalls="4"), None))
     if not q:
         # complete behaviour set of the small configuration
         plans.append(("exhaustive-1x2", dict(BASE, NFlows="1", MaxSteps="3", MaxCalls="3",
